@@ -57,6 +57,7 @@ type Contract struct {
 	Ensures  []*Clause
 	Assigns  []*Clause // each: one lvalue expression, or "nothing"/"everything"
 	HasAssigns bool
+	AssignsInferred bool
 	Loops    map[int][]*Clause
 	Asserts  []*Clause
 	Pure     bool
@@ -203,6 +204,11 @@ func (cs *ContractSet) readContractFile(path, pkgPath string) error {
 			for _, part := range splitTop(rest, ',') {
 				part = strings.TrimSpace(part)
 				if part == "nothing" {
+					continue
+				}
+				if part == "inferred" {
+					// the frame is the syntactic, type-based one computed from the body
+					cur.AssignsInferred = true
 					continue
 				}
 				c, err := mkClause("assigns", part, path, s.line)
